@@ -167,8 +167,12 @@ func TestVerifC03Grpc(t *testing.T) {
 				feat["clause"] = "wrong-route"
 				c03gDiffers(feat, x, got)
 			}
-			verifx.Fail(map[string]any{"x": x}, feat, "gRPC lookup dsthost=%q method=%q matcher=%s glob=%v over %v served by r%d, the specification prescribes r%d",
-				x.Host, x.Path, x.Matcher, x.Glob, x.Routes, got, x.Want)
+			var rs []string
+			for _, r := range x.Routes {
+				rs = append(rs, fmt.Sprintf("r%d=%s%s", r.ID, r.Host, r.Path))
+			}
+			verifx.Fail(map[string]any{"x": x}, feat, "table {%s}: gRPC lookup dsthost=%q method=%q matcher=%s glob=%v served by r%d, the specification prescribes r%d (r0 = no route)",
+				strings.Join(rs, ", "), x.Host, x.Path, x.Matcher, x.Glob, got, x.Want)
 		}
 	}
 	err := verifx.EachCase("", func(raw []byte) error {
